@@ -42,3 +42,11 @@ impl From<TryFromIntError> for Error {
     #[verifier::external_body]
     fn from(source: TryFromIntError) -> Error { unimplemented!() }
 }
+
+// `impl Display for Value` exists in the crate (src/value/mod.rs, not under contract); only its existence matters here: what it
+// writes is the uninterpreted `fmt_display::<Value>`, deliberately unrelated to `debug_val`, so a cache key built with `{param}`
+// instead of `{param:?}` is refuted (C11) rather than being a tool limit
+impl core::fmt::Display for Value {
+    #[verifier::external_body]
+    fn fmt(&self, f: &mut core::fmt::Formatter<'_>) -> core::fmt::Result { unimplemented!() }
+}
